@@ -163,3 +163,95 @@ Section Eval.
     intros _. split; [discriminate | reflexivity].
   Qed.
 End Eval.
+
+(* ------------------------------------------------------------------ the dict-output path *)
+Lemma nondef_app a b : nondef (a ++ b) = nondef a ++ nondef b.
+Proof. unfold nondef. apply filter_app. Qed.
+Lemma nondef_caches caches : nondef (map cache_arg caches) = [].
+Proof. induction caches as [|[rows|] c IH]; simpl; auto. Qed.
+Lemma nondef_with args caches : nondef (args_with args caches) = nondef args.
+Proof. unfold args_with. rewrite nondef_app, nondef_caches, app_nil_r. reflexivity. Qed.
+Lemma tkeys_cache d : tkeys (cache_arg d) = dkeys d.
+Proof. destruct d; reflexivity. Qed.
+Lemma all_keys_with args caches x :
+  all_keys (args_with args caches) None x = flat_map tkeys args ++ flat_map dkeys caches ++ xkeys x.
+Proof.
+  unfold all_keys, args_with. rewrite flat_map_app. simpl. rewrite <- app_assoc. f_equal. f_equal.
+  induction caches as [|d c IH]; simpl; auto. rewrite tkeys_cache, IH. reflexivity.
+Qed.
+
+Theorem keysN_sound args caches x k : In k (keysN args caches x) ->
+  (forall a, In a (nondef args) -> ahas k a = true) /\ In k (flat_map tkeys args ++ flat_map dkeys caches ++ xkeys x).
+Proof. unfold keysN. intros I. apply keys_sound in I. rewrite nondef_with, all_keys_with in I. exact I. Qed.
+Theorem keysN_complete args caches x k : In k (flat_map tkeys args ++ flat_map dkeys caches ++ xkeys x) ->
+  (forall a, In a (nondef args) -> ahas k a = true) -> exists k', In k' (keysN args caches x) /\ tkeq k k' = true.
+Proof.
+  unfold keysN. intros I H. apply keys_complete; [rewrite all_keys_with; exact I | rewrite nondef_with; exact H].
+Qed.
+Theorem keysN_nodup args caches x :
+  (forall a, In a args -> NoDup (tkeys a)) -> (forall d, In d caches -> NoDup (dkeys d)) -> NoDup (keysN args caches x).
+Proof.
+  intros U V. apply keys_nodup. unfold args_with. intros a I. apply in_app_or in I. destruct I as [I|I]; [auto|].
+  apply in_map_iff in I. destruct I as (d & <- & I). rewrite tkeys_cache. auto.
+Qed.
+Theorem keysN_sorted args caches x : StronglySorted (fun a b => tcmp a b <= 0) (keysN args caches x).
+Proof. apply ksort_sorted. Qed.
+
+Lemma runsN_iff caches x k : runsN caches x k = false <-> (forallb supplied caches = true /\ exp_of x k = EPast).
+Proof.
+  unfold runsN. destruct (forallb supplied caches); [|split; [discriminate | intros [H _]; discriminate]].
+  destruct (exp_of x k); split; try discriminate; try (intros [_ H]; discriminate); auto.
+Qed.
+
+Section EvalN.
+  Variable f : list pval -> list pval.
+  Theorem scalar_passthroughN args caches x : any_tableN args caches x = false ->
+    perdictN f args caches x = (NScalar (f (row_args args [])), [([], row_args args [])]).
+  Proof. unfold perdictN. intros ->. reflexivity. Qed.
+  Theorem table_resultN args caches x : any_tableN args caches x = true -> keysN args caches x <> [] ->
+    perdictN f args caches x =
+    (NTable (map (fun k => (k, if runsN caches x k then f (row_args args k) else cachesN caches k)) (keysN args caches x)),
+     map (fun k => (k, row_args args k)) (filter (runsN caches x) (keysN args caches x))).
+  Proof.
+    unfold perdictN. intros -> NE. simpl negb. cbv iota.
+    destruct (keysN args caches x) eqn:E; [congruence|]. reflexivity.
+  Qed.
+  Theorem empty_resultN args caches x : any_tableN args caches x = true -> keysN args caches x = [] ->
+    perdictN f args caches x = (NEmpty caches, []).
+  Proof. unfold perdictN. intros -> ->. reflexivity. Qed.
+End EvalN.
+
+(* the value path is the dict path with the single output `data` *)
+Definition lift1 (r : result) : resultN :=
+  match r with
+  | RScalar v => NScalar [v]
+  | RNone => NEmpty [None]
+  | RData rows => NEmpty [Some rows]
+  | RTable rows => NTable (map (fun r => (fst r, [snd r])) rows)
+  end.
+Lemma keysN_single args d x : keysN args [d] x = result_keys args d x.
+Proof.
+  unfold keysN, result_keys, cand_keys. rewrite nondef_with, all_keys_with. simpl. rewrite app_nil_r. reflexivity.
+Qed.
+Lemma any_tableN_single args d x : any_tableN args [d] x = any_table args d x.
+Proof.
+  unfold any_tableN, any_table, args_with. rewrite existsb_app. simpl.
+  destruct d; simpl; rewrite ?orb_false_r; reflexivity.
+Qed.
+Lemma runsN_single d x k : runsN [d] x k = runs d x k.
+Proof. unfold runsN, runs. destruct d; reflexivity. Qed.
+Theorem value_path_is_one_output (f : list pval -> pval) args d x :
+  perdictN (fun l => [f l]) args [d] x = (lift1 (fst (perdict f args d x)), snd (perdict f args d x)).
+Proof.
+  assert (HF : forall l, filter (runsN [d] x) l = filter (runs d x) l)
+    by (intros; apply filter_ext; intros; apply runsN_single).
+  assert (HM : forall l, map (fun k => (k, if runsN [d] x k then [f (row_args args k)] else cachesN [d] k)) l =
+                         map (fun r => (fst r, [snd r])) (map (fun k => (k, row_value f args d x k)) l)).
+  { intros. rewrite map_map. apply map_ext. intros k. simpl. rewrite runsN_single. unfold row_value.
+    destruct (runs d x k); reflexivity. }
+  unfold perdictN, perdict. rewrite any_tableN_single, keysN_single.
+  destruct (any_table args d x); cbn [negb]; cbv iota; [|reflexivity].
+  destruct (result_keys args d x) as [|k0 ks] eqn:E; cbv iota zeta.
+  - destruct d; reflexivity.
+  - rewrite HM, HF. reflexivity.
+Qed.
